@@ -33,6 +33,7 @@ type Engine struct {
 	pkgs             map[string]*ssa.Package
 	fnInfos          map[*ssa.Function]*fnInfo
 	mu               sync.Mutex
+	summarise        map[string]bool
 	redirects        map[string]*ssa.Function
 	syncFuncs        map[string]bool
 	runtimeErrorType types.Type
@@ -95,6 +96,7 @@ type RunStats struct {
 	MaxDecisions int
 	Aborted      map[string]int
 	Samples      []string
+	Summaries    int
 }
 
 func newStats() *RunStats {
@@ -113,6 +115,7 @@ func (s *RunStats) merge(o *RunStats) {
 	s.Instrs += o.Instrs
 	s.SolverDur += o.SolverDur
 	s.Schedules += o.Schedules
+	s.Summaries += o.Summaries
 	if o.MaxDecisions > s.MaxDecisions {
 		s.MaxDecisions = o.MaxDecisions
 	}
@@ -174,6 +177,9 @@ type Run struct {
 	uf             map[string][]ufApp
 	clockTicks     int64
 	panicSite      string
+	ctxs           []*subCtx
+	localDepth     int
+	noSummaries    bool
 }
 
 type ufApp struct {
@@ -258,7 +264,12 @@ func (r *Run) decide(kind string, n int, cond func(i int) *Term, pos string) int
 	if n <= 0 {
 		engineFail("decide with no alternatives")
 	}
-	k := len(r.log)
+	ctx := r.ctx()
+	logp, prefix := &r.log, r.prefix
+	if ctx != nil {
+		logp, prefix = &ctx.log, ctx.prefix
+	}
+	k := len(*logp)
 	condOf := func(i int) *Term {
 		if cond == nil {
 			return tTrue
@@ -270,8 +281,8 @@ func (r *Run) decide(kind string, n int, cond func(i int) *Term, pos string) int
 		return c
 	}
 	var take int
-	if k < len(r.prefix) {
-		take = r.prefix[k]
+	if k < len(prefix) {
+		take = prefix[k]
 		if take >= n {
 			engineFail("replayed decision %d out of range (%d alternatives) at %s: nondeterministic engine?", take, n, pos)
 		}
@@ -307,16 +318,23 @@ func (r *Run) decide(kind string, n int, cond func(i int) *Term, pos string) int
 		}
 		take = feasible[0]
 		base := make([]int, 0, k+1)
-		for _, d := range r.log {
+		for _, d := range *logp {
 			base = append(base, d.Taken)
 		}
 		for _, alt := range feasible[1:] {
 			p := append(append([]int{}, base...), alt)
-			r.newAlts = append(r.newAlts, p)
+			if ctx != nil {
+				ctx.newAlts = append(ctx.newAlts, p)
+			} else {
+				r.newAlts = append(r.newAlts, p)
+			}
 		}
 		r.assertTerm(condOf(take))
 	}
-	r.log = append(r.log, Decision{Kind: kind, N: n, Taken: take, Pos: pos})
+	if ctx != nil {
+		ctx.conds = append(ctx.conds, condOf(take))
+	}
+	*logp = append(*logp, Decision{Kind: kind, N: n, Taken: take, Pos: pos})
 	return take
 }
 
@@ -706,7 +724,7 @@ func (r *Run) execute() (errMsg string) {
 				r.stats.Aborted[e.reason]++
 				r.stats.Paths++
 			case engineError:
-				errMsg = fmt.Sprintf("%s: %s [at %s]", r.hname, e.msg, r.curPos(r.cur))
+				errMsg = fmt.Sprintf("%s: %s [at %s] stack: %s", r.hname, e.msg, r.curPos(r.cur), r.stackOf(r.cur))
 			default:
 				panic(x)
 			}
@@ -754,4 +772,15 @@ func (r *Run) execute() (errMsg string) {
 		}
 	}
 	return ""
+}
+
+func (r *Run) stackOf(g *G) string {
+	if g == nil {
+		return ""
+	}
+	var fns []string
+	for i := len(g.stack) - 1; i >= 0 && len(fns) < 12; i-- {
+		fns = append(fns, g.stack[i].fn.String())
+	}
+	return strings.Join(fns, " <- ")
 }
